@@ -306,6 +306,7 @@ func runLiveCell(p *Program, step *ssa.Function, s refState, in liveInput, hs bo
 		b = mkSym(bs)
 	}
 	want := refTransition(s, in, hs)
+	firstFresh := ex.nextObj // objects allocated by the step have larger ids
 	outs := ex.Call(st, step, []Val{rp, b}, nil)
 	if ex.Budget || len(outs) == 0 {
 		res.okSim = false
@@ -379,6 +380,24 @@ func runLiveCell(p *Program, step *ssa.Function, s refState, in liveInput, hs bo
 			}
 			if lo, _ := o.St.Range(msg.Len); lo < 1 {
 				res.wellBad = "an empty message may be delivered"
+			}
+			// the receiver may keep what it is given: the message must be freshly allocated by this step and the decoder
+			// must not keep a reference to it (a scratch buffer of the decoder is rewritten by a later message)
+			if msg.Obj <= firstFresh || len(msg.Path) > 0 {
+				fail("the delivered message shares storage with the decoder (not allocated for this delivery): a message the receiver keeps is overwritten later")
+			} else if sv, ok := o.St.heap[rp.Obj].(*StructV); ok {
+				for _, fv := range sv.Fields {
+					switch x := fv.(type) {
+					case *SliceV:
+						if !x.Nil && !x.Unk && x.Obj == msg.Obj {
+							fail("the decoder keeps a reference to the delivered message")
+						}
+					case *PtrV:
+						if !x.Nil && !x.Unk && x.Obj == msg.Obj {
+							fail("the decoder keeps a reference to the delivered message")
+						}
+					}
+				}
 			}
 			if len(segs) > 0 && segs[0].Run == nil && len(segs[0].Elems) > 0 {
 				if f0, ok := segs[0].Elems[0].(*IntV); ok && !(i < len(want.outs) && want.outs[i].sysex) {
